@@ -77,7 +77,8 @@ def gen_exchange(rng, https: bool):
     if c < 0.55:
         return {"k": "resp", "status": rng.choice([500, 503, 429]), "body": "err"}
     if c < 0.80:
-        ra = rng.choice(["0", "1", "2", "7", "1000", "date:3", "date:300", "bogus"])
+        # ("date:-N": an HTTP-date that is already past -- clock skew, a cached error page)
+        ra = rng.choice(["0", "1", "2", "7", "1000", "date:3", "date:300", "bogus", "date:-30", "date:-2"])
         return {"k": "resp", "status": rng.choice([413, 429, 503, 503, 500, 404, 200]), "retry_after": ra, "body": "later"}
     if c < 0.9:
         return {"k": "resp", "status": rng.choice([200, 404, 418]), "body": "fine"}
